@@ -38,6 +38,9 @@ def thorough(chk, prop, mod, repo):
         v["msg"] = "[release configuration] " + v["msg"]
         chk.violations.append(v)
     chk.analysed["release_config"] = {"build_config": f2.config, "rule_instances": len(chk2.obligations), "violations": len(chk2.violations)}
+    if "_pan_index" in chk.extra:
+        from rules.props import pancheck
+        pancheck.clippy_crosscheck(chk, repo)
     # (2) witnesses
     if prop in WITNESS_PROPS:
         wdir = os.path.join(here, "witness")
